@@ -169,7 +169,7 @@ class StreamBed(object):
         self.shttp.time = self.saved_time
         self.tb.close()
 
-    def stream(self, url, logpath, initial, steps, version='1.1'):
+    def stream(self, url, logpath, initial, steps, version='1.1', inet=False):
         """Returns (response head bytes, [bytes that arrived in each burst], states)
         where burst 0 is what follows the head right after the request."""
         for f in os.listdir(os.path.dirname(logpath)):
@@ -177,7 +177,7 @@ class StreamBed(object):
                 os.remove(os.path.join(os.path.dirname(logpath), f))
         files = Files(logpath)
         files.create(initial)
-        fam, addr = self.tb.addrs[self.which]
+        fam, addr = self.tb.addrs[(1 - self.which) if inet else self.which]
         c = socket.socket(fam, socket.SOCK_STREAM)
         c.connect(addr)
         c.setblocking(False)
